@@ -41,6 +41,8 @@ func TestVerif(t *testing.T) {
 		vfReinOp = "rein5"
 		verifReinit(t, r, out)
 		vfReinOp = "rein"
+		// a failing transmission is not a stop either: the task ends with the error or is re-dialled
+		verifAdvFail(t, r, out)
 	case "C06":
 		verifSched(t, r, out, "sch6")
 		verifAdv(t, r, out, "adv6")
@@ -76,6 +78,10 @@ func TestVerif(t *testing.T) {
 		// package's part of C11
 	case "C12":
 		verifC12(t, r, out)
+	case "C13", "C14", "C15":
+		// the wildcards read the system through sources bound at Prepare: every (re)initialisation must
+		// prepare the plugins for the interface as it is found then
+		verifReinitState(t, r, out)
 	case "C16":
 		// the countdown inside a running advertiser: every RA it transmits, the final one included
 		verifAdvCountdown(t, r, out)
